@@ -39,6 +39,54 @@ func rulesC13(c *Ctx) {
 	ruleProceedTable(c, "C13.PROCEED")
 	ruleC13CheckerImmutable(c)
 	ruleC13EmptyString(c)
+	ruleC13OverrideLayers(c)
+}
+
+// ruleC13OverrideLayers: field overrides are layered (child store first, parent store on top) and resolve
+// transitively: label -> displayName -> name asks the caller's checker about name.  WithFieldOverrides
+// therefore wraps the context's CURRENT checker, whatever it is; it never looks inside an earlier layer
+// to build a one-step table (which resolves label -> displayName only).
+func ruleC13OverrideLayers(c *Ctx) {
+	p := c.P
+	fn := p.SSAFunc(p.Method("boltz", "PersistContext", "WithFieldOverrides"))
+	name := FnName(fn)
+	c.Analysed(name)
+	fcFld := p.Field("boltz", "PersistContext", "FieldChecker")
+	n := 0
+	for _, b := range fn.Blocks {
+		for _, in := range b.Instrs {
+			st, ok := in.(*ssa.Store)
+			if !ok {
+				continue
+			}
+			f, base := fieldOfAddr(st.Addr)
+			if !sameVar(f, fcFld) {
+				continue
+			}
+			n++
+			good, why := false, "the new checker is "+describeValue(st.Val)
+			v := st.Val
+			if mi, isMI := v.(*ssa.MakeInterface); isMI {
+				v = mi.X
+			}
+			if call, isCall := v.(*ssa.Call); isCall && len(call.Call.Args) >= 2 {
+				inner := call.Call.Args[0]
+				if f2, base2 := loadedField(inner); sameVar(f2, fcFld) && base2 == base {
+					if _, isParam := call.Call.Args[1].(*ssa.Parameter); isParam {
+						good = true
+					} else {
+						why = "the mappings handed to the new layer are " + describeValue(call.Call.Args[1]) + ", not the overrides given"
+					}
+				} else {
+					why = "the new layer wraps " + describeValue(inner) + " instead of the context's current checker"
+				}
+			}
+			c.Check(good, "C13.OVERRIDES", name+": new checker", p.Pos(st.Pos()), "the new layer wraps the context's current checker with exactly the overrides given: layers resolve transitively",
+				why+": overrides of an earlier layer are no longer applied after this one's (a chain label -> displayName -> name resolves one step only), so a restricted update skips a selected field or writes an unselected one")
+		}
+	}
+	c.CallSites(n)
+	c.Floor("C13.OVERRIDES", 1)
 }
 
 // ruleC13CheckerImmutable: a field checker decides which fields an update may write, and the same
@@ -226,6 +274,74 @@ func ruleC13ListMark(c *Ctx) {
 		}
 	}
 	c.Check(okR, "C13.LISTMARK", FnName(gm), p.Pos(gm.Pos()), "a nested bucket is read as a list exactly when the size marker is present", "the list/map distinction does not test the PRESENCE of the size marker (e.g. tests its value): an empty nested list reads back as a map containing the marker key")
+	ruleC13ListOrder(c)
+}
+
+// ruleC13ListOrder: list elements are stored under the encoded index (Int32ToBytes(i), little endian:
+// bucket key order is NOT index order beyond 256 elements).  The reader therefore fetches element i by
+// the key the writer used for i, or places a fetched element at the index decoded from its key; it never
+// takes the order of the result from the order in which the bucket yields keys.
+func ruleC13ListOrder(c *Ctx) {
+	p := c.P
+	gl := p.SSAFunc(p.Method("boltz", "TypedBucket", "GetList"))
+	gm := p.Method("boltz", "TypedBucket", "getMarshaled")
+	enc := p.Func("boltz", "Int32ToBytes")
+	dec := p.Func("boltz", "BytesToInt32")
+	name := FnName(gl)
+	c.Analysed(name)
+	var derives func(v ssa.Value, f *types.Func, depth int) bool
+	derives = func(v ssa.Value, f *types.Func, depth int) bool {
+		if v == nil || depth > 6 {
+			return false
+		}
+		switch x := v.(type) {
+		case *ssa.Call:
+			if isCallTo(x, f) {
+				return true
+			}
+			return false
+		case *ssa.Convert:
+			return derives(x.X, f, depth+1)
+		case *ssa.ChangeType:
+			return derives(x.X, f, depth+1)
+		case *ssa.Slice:
+			return derives(x.X, f, depth+1)
+		case *ssa.UnOp:
+			return derives(x.X, f, depth+1)
+		case *ssa.Extract:
+			return derives(x.Tuple, f, depth+1)
+		}
+		return false
+	}
+	n := 0
+	for _, fn := range allFuncsWithAnon(gl) {
+		for _, call := range callsIn(fn) {
+			if !isCallTo(call, gm) || len(call.Common().Args) < 2 {
+				continue
+			}
+			n++
+			key := call.Common().Args[1]
+			ok := derives(key, enc, 0)
+			if !ok {
+				// placed at the index decoded from the key?
+				if v, isV := call.(ssa.Value); isV {
+					for _, r := range *v.Referrers() {
+						st, isSt := r.(*ssa.Store)
+						if !isSt {
+							continue
+						}
+						if ia, isIA := st.Addr.(*ssa.IndexAddr); isIA && derives(ia.Index, dec, 0) {
+							ok = true
+						}
+					}
+				}
+			}
+			c.Check(ok, "C13.LISTORDER", name+": "+describeInstr(call), p.Pos(call.Pos()), "element i is fetched by the key the writer stored it under (Int32ToBytes(i)) or placed at the index decoded from its key",
+				"the element key "+describeValue(key)+" is not the encoded index and the element is not placed at an index decoded from it: the order of the list read back follows the bucket's key order (little-endian index bytes), which differs from the index order once the list has more than 256 elements")
+		}
+	}
+	c.CallSites(n)
+	c.Floor("C13.LISTORDER", 1)
 }
 
 // ---- WIDTH -----------------------------------------------------------------------------------
@@ -750,33 +866,52 @@ func ruleC13Nil(c *Ctx) {
 		if !isCallTo(call, put) {
 			continue
 		}
-		nPut++
-		val := call.Common().Args[2]
-		nilEnc := false
-		if sl, ok := val.(*ssa.Slice); ok {
-			if al, ok := sl.X.(*ssa.Alloc); ok {
-				if arr, ok := derefType(al.Type()).Underlying().(*types.Array); ok && arr.Len() == 1 {
-					nilEnc = true
-				}
-			}
+		// the encodings written here: the value itself, or — when one Put writes a value chosen earlier —
+		// each alternative together with the facts of the edge it arrives on
+		type enc struct {
+			val   ssa.Value
+			facts factSet
 		}
-		valueNonNil := fi2.Holds(call.Block(), Fact{"nonnil", st.Params[3], true})
-		if nilEnc {
-			if valueNonNil && fi2.HoldsWhere(call.Block(), func(f Fact) bool {
-				if f.Kind != "true" || f.Pol {
-					return false
-				}
-				bo, ok := f.V.(*ssa.BinOp)
-				return ok && bo.X == ssa.Value(st.Params[1])
-			}) {
-				okS, whyS = false, "the nil encoding is written although the value is non-nil and the type is not TypeNil"
+		var encs []enc
+		if phi, isPhi := call.Common().Args[2].(*ssa.Phi); isPhi {
+			for i, e := range phi.Edges {
+				encs = append(encs, enc{e, fi2.outFacts(phi.Block().Preds[i], phi.Block())})
 			}
 		} else {
-			pc, ok := val.(*ssa.Call)
-			if !ok || !isCallTo(pc, prepend) || pc.Call.Args[0] != ssa.Value(st.Params[1]) || pc.Call.Args[1] != ssa.Value(st.Params[3]) {
-				okS, whyS = false, "a non-nil value is not written as PrependFieldType(fieldType, value)"
-			} else if !valueNonNil {
-				okS, whyS = false, "PrependFieldType encoding is used on a path where value may be nil (null would be stored as an empty value of the type)"
+			encs = append(encs, enc{call.Common().Args[2], fi2.At(call.Block())})
+		}
+		for _, e := range encs {
+			nPut++
+			val := e.val
+			nilEnc := false
+			if sl, ok := val.(*ssa.Slice); ok {
+				if al, ok := sl.X.(*ssa.Alloc); ok {
+					if arr, ok := derefType(al.Type()).Underlying().(*types.Array); ok && arr.Len() == 1 {
+						nilEnc = true
+					}
+				}
+			}
+			valueNonNil := e.facts[Fact{"nonnil", st.Params[3], true}]
+			typeNotNil := false
+			for f := range e.facts {
+				if f.Kind != "true" {
+					continue
+				}
+				if bo, ok := f.V.(*ssa.BinOp); ok && bo.X == ssa.Value(st.Params[1]) && ((bo.Op == token.EQL && !f.Pol) || (bo.Op == token.NEQ && f.Pol)) {
+					typeNotNil = true
+				}
+			}
+			if nilEnc {
+				if valueNonNil && typeNotNil {
+					okS, whyS = false, "the nil encoding is written although the value is non-nil and the type is not TypeNil"
+				}
+			} else {
+				pc, ok := val.(*ssa.Call)
+				if !ok || !isCallTo(pc, prepend) || pc.Call.Args[0] != ssa.Value(st.Params[1]) || pc.Call.Args[1] != ssa.Value(st.Params[3]) {
+					okS, whyS = false, "a non-nil value is not written as PrependFieldType(fieldType, value)"
+				} else if !valueNonNil {
+					okS, whyS = false, "PrependFieldType encoding is used on a path where value may be nil (null would be stored as an empty value of the type)"
+				}
 			}
 		}
 	}
